@@ -7,7 +7,7 @@ from fractions import Fraction
 from .. import karr
 from ..absint import Interp, ObjV
 from ..cfg import CFG
-from ..forms import Const, Form, fpow, mk_fn, is_real_form
+from ..forms import Const, Form, fpow, mk_fn, is_real_form, const_float
 from ..rules import PI, S, body_nodes, parents, check_late_binding
 from ..srcmodel import src_of
 
@@ -21,6 +21,7 @@ EXPLANATION = (
     "single-step shortcut is gamma==0 or tests ==0 every parameter D_op depends on (alpha, beta_2, beta_3). C08.6: D_op is the NLSE's linear operator -alpha'/2 - j/2*beta2*W^2 - j/6*beta3*W^3 (shared with C07.3). C08.7: the returned field is the field the stepping loop ends with (not a cast copy stored into a buffer of the input's dtype). Not decided: convergence "
     "to the NLSE solution, finiteness.")
 EXPLANATION += (' Added after the audit wave: C08.8 the first adaptive step is bounded by the fibre length before it is used (a weak field in a lossy fibre otherwise steps past the end: negative remainder, exp(+alpha*h/2) overflow, NaN output; an all-zero field never returned).')
+EXPLANATION += (' Second audit wave: C08.6 the dB-to-neper constant equals 10/ln(10) to 1e-9 (constants written with log(10) are evaluated by forms.const_float).')
 TRUSTED = ["numpy.fft", "Karr's affine-relation domain as implemented in ocv/karr.py", "C07.3 (D_op form)"]
 
 
@@ -381,14 +382,16 @@ def rule_dop(ctx, fi, it, rule):
     ctx.check(rule, b2 == want2, fi, dop_stmt, f"D_op beta_2 term = {b2!r}", "-j/2*beta2*(w*1e-12)^2", f"differs from {want2!r}")
     ctx.check(rule, b3 == want3, fi, dop_stmt, f"D_op beta_3 term = {b3!r}", "-j/6*beta3*(w*1e-12)^3", f"differs from {want3!r}")
     ctx.check(rule, rest.is_zero(), fi, dop_stmt, f"D_op other terms = {rest!r}", "none", "dispersion operator has terms besides loss, beta2, beta3")
-    q = (loss / S("alpha")).rational()
+    q = const_float(loss / S("alpha"))
     if q is None or q == 0:
         ctx.violation(rule, fi, dop_stmt, f"D_op loss term = {loss!r}", "loss term is not a real constant times alpha")
     else:
         k = -1 / (2 * q)   # loss = -alpha/(2k)
-        ok = abs(float(k) - 4.342944819) < 5e-3
+        # exact to rounding: the rounded 4.343 is 1.3e-5 off, i.e. 1.5e-4 in the power left after 50 dB of loss - three orders
+        # of magnitude above anything the "times 10^(-alpha*L/10)" of the statement can mean by equality
+        ok = abs(float(k) / 4.342944819032518 - 1) < 1e-9
         ctx.check(rule, ok, fi, dop_stmt, f"D_op loss term = {loss!r}", f"-alpha/(2*{float(k):.4f}), 10/ln10 = 4.3429",
-                  f"loss term is -alpha/(2*{float(k):.5g}); the dB->neper constant must be 10/ln(10)=4.3429 (power law 10^(-alpha*L/10) broken)")
+                  f"loss term is -alpha/(2*{float(k):.7g}); the dB->neper constant must be 10/ln(10) = 4.342944819 (a rounded 4.343 leaves the output power off by 1.3e-5 per neper: 1.5e-4 after 50 dB)")
     return b2, dop_stmt
 
 
